@@ -199,7 +199,7 @@ MANIFEST_TEXT = {
              "Panics found earlier by this machinery and repaired are listed under C07 / C12 / C15 / C17 / C18 / C19.",
         technique="Lean 4 proof (bounds of every index expression; checked = total decoder) + differential correspondence with panic / hang / input-write observation"),
     "C10": dict(
-        text="Lean theorems: C10_encryptfrm_memory (EncryptFRMPayload leaves every byte outside the slice unchanged, for any spare capacity, any lawful cipher; model of Go slices with append), C10_old_code_wrote_spare_capacity (the repaired defect), "
+        text="Lean theorems: C10_encryptfrm_memory (EncryptFRMPayload leaves every byte outside the slice unchanged, for any spare capacity, any lawful cipher; model of Go slices with append), C10_encryptfopts_memory (the same for EncryptFOpts: in place, nothing behind the slice, more than 15 bytes refused untouched), C10_old_code_wrote_spare_capacity (the repaired defect), "
              "C10_*_receiver_independent (no field of a decoded MAC payload / ChMask / FHDR / MACPayload / JoinAccept / CFList payload depends on what the receiver held). "
              "Aliasing, inspect-only operations, band-instance isolation and data races are observed on the implementation: overwrite-and-look-again, canaries, two instances, Go race detector.",
         note="PARTIAL by nature: aliasing and data races live in Go's memory model and scheduler; the model's functions are pure and cannot exhibit them, so for those clauses the check is a (structured, seeded) test with the race detector. "
